@@ -1603,7 +1603,7 @@ func TestVerif_C28(t *testing.T) {
 		kit.Run(s, "flush_vs_concurrent_record", kit.N{Quick: 20000, Thorough: 2000000}, c28FlushGen, c28FlushCheck)
 	}
 	if only == "" || only == "stress" || s.Replaying() {
-		kit.Run(s, "receiver_oracle_under_stress", kit.N{Quick: 1000, Thorough: 40000}, c28Gen, c28Check)
+		kit.Run(s, "receiver_oracle_under_stress", kit.N{Quick: 3000, Thorough: 40000}, c28Gen, c28Check)
 	}
 	if only == "" || only == "flap" || s.Replaying() {
 		c28RunFlap(s)
